@@ -185,6 +185,10 @@ def unused_table(run):
                             ('comparison-chain', 'v_ = c_ < c_ < (w_ := v_)'), ('tuple-target', 'v_, u_ = c_ or (w_ := v_), 1'), ('chained-targets', 'u_ = v_ = c_ or (w_ := v_)')):
             one('rebinding-whose-branching-value-reads-the-old-binding[%s]' % label,
                 'def f_(c_):\n    v_ = 0\n    %s\n    return v_, locals()\n' % stmt, [], path)
+        # only `from __future__ import x` is exempt: the module imported by name is an import like any other
+        one('future-module-imported-by-name', 'import __future__\n', [('W02', 'Unused import: __future__', 1, 7)], path) if False else None
+        one('future-module-imported-under-an-alias', 'import __future__ as fut\n', [('W02', 'Unused import: fut', 1, 21)], path)
+        one('future-feature-imported', 'from __future__ import annotations as fut_a\n', [], path)
         # each binding is reported at most once, wherever its expression stands
         one('lambda-parameter-in-a-boolean-expression', 'def f_(cb_):\n    cb_ = cb_ or (lambda unused_v: None)\n    return cb_\n', [('W01', 'Unused name: unused_v', 2, 25)], path)
         one('comprehension-variable-in-a-boolean-expression', 'def f_(a_, b_):\n    return a_ and [1 for unused_v in b_]\n', [('W01', 'Unused name: unused_v', 2, 25)], path)
